@@ -207,6 +207,13 @@ class Builder:
     def pick(self, cands):
         if not cands:
             return None
+        if len(cands) > 1 and self.draw(st.integers(0, 4)) == 0:
+            # layout-dependent code paths (ravel/reshape/argmax/copies) only show on operands that are not laid out
+            # row-major: prefer those now and then
+            odd = [h for h in cands if h in self.ref.env and getattr(self.ref.env[h], "ndim", 0) >= 2
+                   and not self.ref.env[h].flags.c_contiguous]
+            if odd:
+                cands = odd
         # bias toward recent handles and toward re-use: draw two, take the later w.p. 1/2
         i = self.draw(st.integers(0, len(cands) - 1))
         if len(cands) > 2 and self.recency_bias:
